@@ -1264,15 +1264,31 @@ impl<'s> Semantics<'s> {
             block.index()
         };
 
+        // In 64-bit mode a 32-bit destination register is zero-extended even
+        // when the condition does not hold.
+        let not_moved_index = {
+            let block = control_flow_graph.new_block()?;
+
+            if let Mode::Amd64 = *self.mode() {
+                if detail.operands[0].size == 4 {
+                    let dst = self.operand_load(block, &detail.operands[0])?;
+                    self.operand_store(block, &detail.operands[0], dst)?;
+                }
+            }
+
+            block.index()
+        };
+
         let condition = self.cc_condition()?;
 
         control_flow_graph.conditional_edge(head_index, block_index, condition.clone())?;
         control_flow_graph.conditional_edge(
             head_index,
-            tail_index,
+            not_moved_index,
             Expr::cmpeq(condition, expr_const(0, 1))?,
         )?;
         control_flow_graph.unconditional_edge(block_index, tail_index)?;
+        control_flow_graph.unconditional_edge(not_moved_index, tail_index)?;
 
         control_flow_graph.set_entry(head_index)?;
         control_flow_graph.set_exit(tail_index)?;
